@@ -331,7 +331,16 @@ func (vm *VirtualMachine) eval(ctx context.Context) error {
 		case op.LoadFast:
 			vm.push(vm.activeFrame.Locals()[vm.fetch()])
 		case op.LoadGlobal:
-			vm.push(vm.activeCode.Globals[vm.fetch()])
+			idx := vm.fetch()
+			value := vm.activeCode.Globals[idx]
+			if value == nil {
+				// The variable was declared by code that has not assigned it:
+				// typically an earlier run that failed before reaching the
+				// assignment.
+				return errz.EvalErrorf("eval error: variable %q has no value",
+					vm.activeCode.Global(int(idx)).Name())
+			}
+			vm.push(value)
 		case op.LoadFree:
 			idx := vm.fetch()
 			freeVars := vm.activeFrame.fn.FreeVars()
